@@ -382,6 +382,8 @@ class World:
             world = self
 
             def tp(p, o):
+                if user_transform == "copy":
+                    p = p.copy()  # a functional transformation: returns a new Plan, leaves its argument alone
                 if user_transform:
                     # a user transformation of the physical plan: one extra call that runs after every other call
                     def transform_marker():
@@ -990,23 +992,29 @@ def check_dry(spec, state, post_real, w_real, r_real, out, fr, norm, order="topo
         d = plan_diff(cap[0][0], cap[0][1], pplan, onode)
         if d:
             msgs.append(("C14", "the plan returned by the dry run differs from the physical plan the real run executes: " + d))
-    # the same with a user transform_physical: the dry run must return the TRANSFORMED plan the real run would execute
-    wd = World(spec, snap, versions, clock, norm, order)
-    rd = wd.run(out=out, fresh=fr, dry_run=True, user_transform=True)
-    we = World(spec, snap, versions, clock, norm, order)
-    cap2 = []
-    re_ = we.run(out=out, fresh=fr, capture=cap2, user_transform=True)
-    if rd[0] == "ret" and re_[0] == "ret" and cap2:
-        if [e for e in wd.log if e[0] != "mtime"]:
-            msgs.append(("C14", f"dry run with transform_physical touched stores / ran calls: {[e for e in wd.log if e[0] != 'mtime'][:4]}"))
-        try:
-            d = plan_diff(cap2[0][0], cap2[0][1], rd[1][0], rd[1][1])
-        except Exception as e:  # noqa
-            d = f"dry run returned {rd[1]!r} ({e!r})"
-        if d:
-            msgs.append(("C14", "with transform_physical: the plan returned by the dry run differs from the transformed plan the real run executes: " + d))
-    elif rd[0] != re_[0]:
-        msgs.append(("C14", f"with transform_physical: dry run gave {rd[0]}, real run gave {re_[0]}"))
+    # the same with a user transform_physical (in place, and functional = returning a new Plan): the dry run
+    # must return the TRANSFORMED plan, and the transformed plan is what the real run executes
+    for ut in ((True, "copy") if fr is None else ()):  # (independent of the fresh_time argument: explored without it)
+        how = "in-place" if ut is True else "copying"
+        wd = World(spec, snap, versions, clock, norm, order)
+        rd = wd.run(out=out, fresh=fr, dry_run=True, user_transform=ut)
+        we = World(spec, snap, versions, clock, norm, order)
+        cap2 = []
+        re_ = we.run(out=out, fresh=fr, capture=cap2, user_transform=ut)
+        if rd[0] == "ret" and re_[0] == "ret" and cap2:
+            if [e for e in wd.log if e[0] != "mtime"]:
+                msgs.append(("C14", f"dry run with {how} transform_physical touched stores / ran calls: {[e for e in wd.log if e[0] != 'mtime'][:4]}"))
+            try:
+                d = plan_diff(cap2[0][0], cap2[0][1], rd[1][0], rd[1][1])
+            except Exception as e:  # noqa
+                d = f"dry run returned {rd[1]!r} ({e!r})"
+            if d:
+                msgs.append(("C14", f"with {how} transform_physical: the plan returned by the dry run differs from the transformed plan the real run executes: " + d))
+            nt = sum(1 for e in we.log if e[:2] == ("call", "T"))
+            if nt != 1:
+                msgs.append(("C14", f"with {how} transform_physical: the dry run returns the transformed plan, but the real run executed the call added by the transformation {nt} times"))
+        elif rd[0] != re_[0]:
+            msgs.append(("C14", f"with {how} transform_physical: dry run gave {rd[0]}, real run gave {re_[0]}"))
     del wb.log[:]
     nodes = list(pplan.graph.nodes())
     try:
